@@ -355,14 +355,19 @@ func init() {
 	})
 
 	reg("github.com/google/uuid.New", func(fr *frame, args []Value) Value {
+		// distinct on every call within a path (random UUIDs do not repeat)
+		fr.it.uuidSeq++
 		a := make(Array, 16)
 		for i := range a {
 			a[i] = fr.it.tt.bytes[(i*17+3)&0xff]
 		}
+		a[14] = fr.it.tt.bytes[(fr.it.uuidSeq>>8)&0xff]
+		a[15] = fr.it.tt.bytes[fr.it.uuidSeq&0xff]
 		return a
 	})
 	reg("github.com/google/uuid.NewString", func(fr *frame, args []Value) Value {
-		return fr.it.mkStr("03142536-4758-4a6b-8c9d-aebfc0d1e2f3")
+		fr.it.uuidSeq++
+		return fr.it.mkStr(fmt.Sprintf("03142536-4758-4a6b-8c9d-aebfc0d1%04x", fr.it.uuidSeq&0xffff))
 	})
 
 	// ---- log: no-ops ----
